@@ -1,3 +1,15 @@
 #!/bin/bash
-# extra pre-builds (race build, reference drivers); filled in as checks need them
+# builds the reference drivers whose toolchains are present (Java: Maven oracle; Rust: semver crate oracle)
+ROOT="$(cd "$(dirname "${BASH_SOURCE[0]}")/.." && pwd)"
+mkdir -p "$ROOT/.cache/java" "$ROOT/.cache/rust"
+if command -v javac >/dev/null && [ -f /usr/share/maven/lib/maven-artifact-3.x.jar ]; then
+  if [ ! -f "$ROOT/.cache/java/MavenOracle.class" ] || [ "$ROOT/oracle/java/MavenOracle.java" -nt "$ROOT/.cache/java/MavenOracle.class" ]; then
+    javac -cp /usr/share/maven/lib/maven-artifact-3.x.jar -d "$ROOT/.cache/java" "$ROOT/oracle/java/MavenOracle.java" || echo "note: Maven oracle not built"
+  fi
+fi
+if command -v cargo >/dev/null; then
+  if [ ! -x "$ROOT/.cache/rust/release/semver_oracle" ]; then
+    ( cd "$ROOT/oracle/rust" && CARGO_NET_OFFLINE=true CARGO_TARGET_DIR="$ROOT/.cache/rust" cargo build --offline --release >/dev/null 2>&1 ) || echo "note: Rust semver oracle not built"
+  fi
+fi
 exit 0
